@@ -25,10 +25,10 @@ RULE = ("(1) inventory: in a fresh interpreter the re module is wrapped BEFORE p
         "time: R1 every input of length <= 48 finishes within 0.25 s; R2 between consecutive lengths La<Lb time may grow at "
         "most like a degree-8 polynomial (with a 2 ms noise floor); the slowest families per pattern / entry point are "
         "followed up to length 384. Non-trivial = the pattern / entry point rejects the input (the only situation where "
-        "backtracking cost shows); distinct = pattern or entry point + family. (4) every text position of 8 base documents is probed with a canary: text that reaches re as part of a PATTERN (unescaped) is confirmed end to end with a nested-quantifier pattern there and near-miss subjects elsewhere.")
+        "backtracking cost shows); distinct = pattern or entry point + family. (4) every text position of 8 base documents is probed with a canary: text that reaches re as part of a PATTERN (unescaped) is confirmed end to end with a nested-quantifier pattern there and near-miss subjects elsewhere. (5) number-shaped text (exponent notation, long digit runs, signs, underscores, non-ASCII digits; 24 families growing one character at a time up to 48 characters) in every converted field - timestamps, disc numbers, sizes, respins, flags, as text and as bare JSON number tokens - under the same R1/R2 oracle: the cost of a conversion is not visible at the re boundary.")
 ASSUMPTIONS = ["CPU time (time.process_time) measured in the checking process with a virtual-time interval timer; thresholds leave > 100x margin over the slowest legitimate case",
                "an empirical cost model, not an ambiguity proof of the automata: a blow-up outside the explored families/lengths stays invisible"]
-FLOORS = {"distinct_nontrivial": 1500, "patterns": 300, "entry-points": 600}
+FLOORS = {"distinct_nontrivial": 1500, "patterns": 300, "entry-points": 600, "number-shaped-fields": 400}
 
 R1_LIMIT = 0.25
 NOISE_FLOOR = 0.002
@@ -336,6 +336,113 @@ def entry_points():
 GENERIC = ["a", "1", "-", ".", ":", "!", "/", "@", " ", "A", "_", "\n"]
 
 
+# ---- number-shaped text ----------------------------------------------------------------------------------------------------
+# Not every cost sits in a pattern: text that is CONVERTED (timestamps, disc numbers, sizes, respins, flags) can be short and
+# still expensive when the conversion is exact for huge magnitudes.  Families grow one character at a time.
+NUMBER_FAMILIES = [("1e", "9", ""), ("1E+", "9", ""), ("1e-", "9", ""), ("9e", "9", ""), (".1e", "9", ""), ("1.5e", "9", ""), ("-1e", "9", ""), ("1e", "9", ".0"),
+                   ("1", "0", ""), ("-", "9", ""), ("0.", "0", "1"), ("1", "_0", ""), ("0x", "f", ""), ("1e", "0", "1"), ("", "9", "e9"), ("", "9", "e99"),
+                   ("", "\u0661", ""), ("1e", "\u0669", ""), (" ", "9", " "), ("+", "1", ""), ("1e+", "0", "9"), ("inf", "f", ""), ("1", "e1", ""), ("", "1.", "1")]
+NUMBER_LENGTHS = list(range(1, 15)) + [20, 32, 48]
+
+
+def number_sinks():
+    import productmd.common as common
+    import productmd.composeinfo as ci
+    import productmd.images as im
+    import productmd.treeinfo as ti
+    import productmd.discinfo as di
+
+    def ti_field(section, option, legacy=False):
+        def sink(s):
+            s = s.replace("\n", "~")
+            if legacy:
+                text = "[general]\nfamily = Foo\nversion = 1\narch = x86_64\ntimestamp = 1\nvariant = Foo\n"
+                text = text.replace("timestamp = 1", "timestamp = " + s)
+            else:
+                text = TI_HEAD % "1"
+                if section == "tree":
+                    text = text.replace("%s = 1\n" % option, "%s = %s\n" % (option, s))
+                elif section == "media":
+                    text += "\n[media]\ndiscnum = 1\ntotaldiscs = 1\n"
+                    text = text.replace("%s = 1\n" % option, "%s = %s\n" % (option, s))
+                else:
+                    text = text.replace("[release]\n", "[release]\n%s = %s\n" % (option, s))
+            ti.TreeInfo().loads(text)
+        return sink
+
+    def image_doc(field, raw):
+        def sink(s):
+            rec = {"path": "p", "mtime": 1, "size": 1, "volume_id": None, "type": "dvd", "format": "iso", "arch": "x86_64", "disc_number": 1, "disc_count": 1,
+                   "checksums": {"md5": "x"}, "implant_md5": None, "bootable": False, "subvariant": "S"}
+            rec[field] = "@@" if raw else s
+            doc = {"header": {"type": "productmd.images", "version": "1.2"},
+                   "payload": {"compose": {"id": "F-22-20160622.n.3", "type": "nightly", "date": "20160622", "respin": 3}, "images": {"Server": {"x86_64": [rec]}}}}
+            text = json.dumps(doc)
+            if raw:
+                text = text.replace('"@@"', s.replace("\n", " "))       # the text as a bare JSON number token
+            im.Images().loads(text)
+        return sink
+
+    def respin(raw):
+        def sink(s):
+            doc = {"header": {"type": "productmd.composeinfo", "version": "1.2"},
+                   "payload": {"compose": {"id": "F-22-20160622.n.3", "type": "nightly", "date": "20160622", "respin": "@@" if raw else s},
+                               "release": {"name": "F", "short": "F", "version": "22", "type": "ga"}, "variants": {}}}
+            text = json.dumps(doc)
+            if raw:
+                text = text.replace('"@@"', s.replace("\n", " "))
+            ci.ComposeInfo().loads(text)
+        return sink
+
+    def image_attr(field):
+        def sink(s):
+            img = im.Image(im.Images())
+            setattr(img, field, s)
+            getattr(img, "_validate_" + field)()
+        return sink
+
+    return [
+        ("TreeInfo.loads([tree] build_timestamp)", ti_field("tree", "build_timestamp")), ("TreeInfo.loads(pre-productmd [general] timestamp)", ti_field("general", "timestamp", legacy=True)),
+        ("TreeInfo.loads([media] discnum)", ti_field("media", "discnum")), ("TreeInfo.loads([media] totaldiscs)", ti_field("media", "totaldiscs")),
+        ("TreeInfo.loads([release] is_layered)", ti_field("release", "is_layered")),
+        ("DiscInfo.loads(timestamp line)", lambda s: di.DiscInfo().loads("%s\nFedora\nx86_64\nALL" % s.replace("\n", "~"))),
+        ("DiscInfo.loads(disc numbers line)", lambda s: di.DiscInfo().loads("1.5\nFedora\nx86_64\n%s" % s.replace("\n", "~"))),
+        ("DiscInfo.loads(disc numbers list)", lambda s: di.DiscInfo().loads("1.5\nFedora\nx86_64\n1,%s" % s.replace("\n", "~"))),
+        ("Images.loads(size as text)", image_doc("size", False)), ("Images.loads(size as number token)", image_doc("size", True)),
+        ("Images.loads(mtime as text)", image_doc("mtime", False)), ("Images.loads(mtime as number token)", image_doc("mtime", True)),
+        ("Images.loads(disc_number as text)", image_doc("disc_number", False)), ("Images.loads(disc_count as number token)", image_doc("disc_count", True)),
+        ("ComposeInfo.loads(respin as text)", respin(False)), ("ComposeInfo.loads(respin as number token)", respin(True)),
+        ("split_version", common.split_version), ("get_major_version", common.get_major_version), ("get_minor_version", common.get_minor_version),
+        ("get_date_type_respin(respin part)", lambda s: ci.get_date_type_respin("F-22-20160622.n." + s)),
+        ("parse_nvra(epoch part)", lambda s: common.parse_nvra("glibc-%s:2.18-11.fc20.x86_64" % s)),
+        ("verify_label(number part)", lambda s: ci.verify_label("RC-1." + s)),
+    ]
+
+
+def number_case(case, sinks=None):
+    sinks = sinks or number_sinks()
+    fn = dict(sinks)[case["entry"]]
+    family = tuple(case["family"])
+    prev, worst = None, 0.0
+    for n in NUMBER_LENGTHS:
+        s = family[0] + family[1] * n + family[2]
+        t = measure(lambda: fn(s), 2.0)
+        if t is not None and prev is not None and too_fast_growing(prev[0], max(prev[1], 0.01), len(s), t, 2.0):
+            # one-character steps leave little room: a verdict needs the minimum of several runs, not a single hiccup
+            for _ in range(4):
+                t2 = timed(lambda: fn(s), 2.0)
+                if t2 is not None:
+                    t = min(t, t2)
+        spent = 2.0 if t is None else t
+        check(spent <= R1_LIMIT, "short-input-stalls", lambda: "%s: %d-character text %r took %s CPU seconds (limit %.2f s)" % (
+            case["entry"], len(s), s[:40], "more than 2.0" if t is None else "%.3f" % t, R1_LIMIT))
+        if prev is not None:
+            check(not too_fast_growing(prev[0], max(prev[1], 0.01), len(s), t, 2.0), "super-polynomial-growth", lambda: "%s: family %r: %.4f s at length %d, %.4f s at length %d" % (
+                case["entry"], family, prev[1], prev[0], spent, len(s)))
+        prev, worst = (len(s), spent), max(worst, spent)
+    return {"nontrivial": True, "labels": ["number-shaped"], "t": worst}
+
+
 # ---- document text used as a pattern -----------------------------------------------------------------------------------------
 def taint_inventory():
     env = dict(os.environ, PYTHONPATH=VERIF_DIR + os.pathsep + os.environ.get("PYTHONPATH", ""), VERIF_REPO=REPO, PYTHONHASHSEED="0")
@@ -487,6 +594,14 @@ def run(ctx):
                 break
         sub.wall += time.time() - t0
 
+    # number-shaped text in converted fields
+    if ctx.wanted("number-shaped-fields"):
+        sinks = number_sinks()
+        if ctx.shard == 0:
+            ctx.sub("number-shaped-fields").notes.append("%d sinks x %d families x lengths %r: %s" % (
+                len(sinks), len(NUMBER_FAMILIES), NUMBER_LENGTHS, "; ".join(n for n, _ in sinks)))
+        ctx.sweep("number-shaped-fields", [{"entry": name, "family": list(fam)} for name, _ in sinks for fam in NUMBER_FAMILIES], lambda c: number_case(c, sinks), exhaustive=True)
+
     # entry points
     sub = ctx.sub("entry-points")
     t0 = time.time()
@@ -568,5 +683,5 @@ def entry_case(case, eps=None):
     return {"nontrivial": rejected, "labels": ["rejected" if rejected else "accepted"], "t": t}
 
 
-REPLAY = {"patterns": pattern_case, "entry-points": entry_case, "input-as-pattern": taint_case}
+REPLAY = {"number-shaped-fields": number_case, "patterns": pattern_case, "entry-points": entry_case, "input-as-pattern": taint_case}
 QUICK_JOBS = 8
